@@ -55,11 +55,13 @@ def modelPair (dm sm : String) (dl sl : Layout) (v w : List Int) : String :=
 def modelAcc (t m : String) (l : Layout) (v : List Int) : String :=
   let n := l.length
   let p := fn v
-  let sem := (List.range n).map (fun s => semanticAt l p s)
+  let bump : Int := if m = "I" then 1 else 0       -- model I reads semantic channels from the second pixel of the planes
+  let sem := (List.range n).map (fun s => semanticAt l p s + bump)
   let col := (List.range n).map (fun s => getColor l p s)
   let idx := if m = "K" ∨ m = "B" then "-" else showComma v
   let off : List Int :=
-    if m = "P" then (List.range n).map (fun (k : Nat) => Int.ofNat k)
+    if m = "I" then (List.range n).map (fun (k : Nat) => Int.ofNat (2 * k + 1))
+    else if m = "P" then (List.range n).map (fun (k : Nat) => Int.ofNat k)
     else match chanBytes t, sizeSet t with
       | some cb, _ => (List.range n).map (fun (k : Nat) => Int.ofNat (k * cb))
       | none, some sz => (prefixSums (physSizes l sz)).map (fun (x : Nat) => Int.ofNat x)
@@ -132,15 +134,17 @@ def judgePair (dm : String) (md ms : Layout) (v w : List Int) (ows : List String
 def judgeAcc (t m : String) (l : Layout) (v : List Int) (ows : List String) : String :=
   let n := l.length
   let sem := (List.range n).map (fun s => v.getD (l.phys s) 0)
+  let semObs := if m = "I" then sem.map (· + 1) else sem
   let offExp : List Int :=
-    if m = "P" then (List.range n).map (fun (k : Nat) => Int.ofNat k)
+    if m = "I" then (List.range n).map (fun (k : Nat) => Int.ofNat (2 * k + 1))
+    else if m = "P" then (List.range n).map (fun (k : Nat) => Int.ofNat k)
     else match chanBytes t, sizeSet t with
       | some cb, _ => (List.range n).map (fun (k : Nat) => Int.ofNat (k * cb))
       | none, some sz => (prefixSums (physSizes l sz)).map (fun (x : Nat) => Int.ofNat x)
       | none, none => []
   match listField ows "at", listField ows "sem", listField ows "col", field ows "idx", listField ows "off" with
   | some atv, some sm, some cl, some ix, some off =>
-    firstFail [(atv == v, "at_c-memory-order"), (sm == sem, "semantic_at_c-mapping"), (cl == sem, "get_color-mapping"),
+    firstFail [(atv == v, "at_c-memory-order"), (sm == semObs, "semantic_at_c-mapping"), (cl == sem, "get_color-mapping"),
                (if m = "K" ∨ m = "B" then ix == "-" else commaInts ix == some v, "operator[]-memory-order"), (off == offExp, "at_c-position")]
   | _, _, _, _, _ => fail "shape"
 
